@@ -68,6 +68,37 @@ def gen(seed, tier, index):
     objrefs = {}
     n = r.choice([3, 5, 8, 12]) if tier == "quick" else r.choice([6, 12, 20])
     for t in toks: verify_round(t)
+    if index % 4 == 2:
+        # directed prefix: the chain in which BOTH blobs of the master key are re-wrapped while private objects exist - user PIN set, private object created,
+        # the SO changes its own PIN, (restart), the SO sets a new user PIN, the user reads the old private object
+        t = toks[0]; tk = g.w.toks[t]
+        def readback():
+            logout(t)
+            g.emit({"f": "C_Login", "s": ensure_session(t), "user": K.CKU_USER, "pin": g.w.toks[t].user_pin.hex()})
+            g.emit({"act": "readout", "s": ensure_session(t), "tmpl": [A_ulong(K.CKA_CLASS, K.CKO_DATA)], "types": [K.CKA_LABEL, K.CKA_VALUE]})
+            g.emit({"f": "C_Logout", "s": ensure_session(t)})
+        logout(t); g.emit({"f": "C_Login", "s": ensure_session(t), "user": K.CKU_SO, "pin": tk.so_pin.hex()})
+        up0 = g.pin(4, 16); g.emit({"f": "C_InitPIN", "s": ensure_session(t), "pin": up0.hex()}); hist_pins[t]["U"].append(up0)
+        logout(t); g.emit({"f": "C_Login", "s": ensure_session(t), "user": K.CKU_USER, "pin": up0.hex()})
+        ref = g.new_obj(); val = bytes(r.randrange(256) for _ in range(r.choice([16, 40, 200])))
+        g.emit({"f": "C_CreateObject", "s": ensure_session(t), "out": ref, "tmpl": [A_ulong(K.CKA_CLASS, K.CKO_DATA), A_bool(K.CKA_TOKEN, True), A_bool(K.CKA_PRIVATE, True), A_bytes(K.CKA_LABEL, objs.label(ref)), A_bytes(K.CKA_VALUE, val)]})
+        objrefs[ref] = val
+        steps = r.choice([["so_set", "so_init"], ["so_set", "restart", "so_init"], ["user_set", "so_set", "so_init"], ["so_set", "so_set", "so_init", "user_set"], ["so_init", "so_set", "restart", "so_init"]])
+        for stp in steps:
+            tk = g.w.toks[t]
+            if stp == "restart":
+                g.emit({"act": "restart"}); sess.clear(); continue
+            logout(t)
+            if stp == "user_set":
+                g.emit({"f": "C_Login", "s": ensure_session(t), "user": K.CKU_USER, "pin": tk.user_pin.hex()})
+                np_ = g.pin(4, 16); g.emit({"f": "C_SetPIN", "s": ensure_session(t), "old": tk.user_pin.hex(), "new": np_.hex()}); hist_pins[t]["U"].append(np_)
+            else:
+                g.emit({"f": "C_Login", "s": ensure_session(t), "user": K.CKU_SO, "pin": tk.so_pin.hex()})
+                np_ = g.pin(4, 16)
+                if stp == "so_set": g.emit({"f": "C_SetPIN", "s": ensure_session(t), "old": tk.so_pin.hex(), "new": np_.hex()}); hist_pins[t]["S"].append(np_)
+                else: g.emit({"f": "C_InitPIN", "s": ensure_session(t), "pin": np_.hex()}); hist_pins[t]["U"].append(np_)
+            readback()
+        verify_round(t)
     for _ in range(n):
         t = r.choice(toks); tk = g.w.toks[t]
         x = r.random()
